@@ -186,3 +186,21 @@ contract(TS, "Tensor.countValues", types=dict(self="Tensor"), returns="int",
          modifies=[],
          ensures={"C12": ["result == C(len(%s.payloads))" % R]},
          note="a 1-D tensor counts exactly what its root fiber counts")
+
+# ---------------------------------------------------------------- positional read f[k] (C03 / C10)
+contract(FB, "Fiber.__getitem__", cases=[dict(self="Fiber", keys="int")], case_names=["position"], returns="CoordPayload",
+         requires=["wf(self)"],
+         raises={"IndexError": dict(when="keys >= len(self.coords) or keys < -len(self.coords)",
+                                    ensures={"C10": ["unchanged_list(self.coords)", "unchanged_list(self.payloads)"]})},
+         modifies=[],
+         ensures={"C03 C10": [
+             "fresh(result)",
+             "result.coord == self.coords[keys if keys >= 0 else keys + len(self.coords)]",
+             "result.payload is self.payloads[keys if keys >= 0 else keys + len(self.coords)]",
+             "unchanged_list(self.coords)", "unchanged_list(self.payloads)"]},
+         note="an integer position (negative positions count from the end) addresses the stored coordinate and the stored payload object itself")
+
+contract(FB, "Fiber.minCoord", types=dict(self="Fiber"), returns="opt[int]", requires=["wf(self)"], modifies=[],
+         ensures={"C03": ["isnone(result) == (len(self.coords) == 0)",
+                          "implies(len(self.coords) > 0, val(result) == self.coords[0])"]},
+         note="the smallest stored coordinate (the first one of an ordered fiber)")
